@@ -48,22 +48,24 @@ Section ListProofs.
       apply Forall_app. split; [exact F|eapply vld_all_P; exact V].
     - destruct (vld_all vld vs) as [ys|] eqn:V; [|discriminate]. inversion H; subst.
       apply Forall_app. split; [exact F|eapply vld_all_P; exact V].
-    - inversion H; subst. apply Forall_imul. exact F.
+    - destruct (fits n); [|discriminate]. inversion H; subst. apply Forall_imul. exact F.
     - discriminate H.
-    - destruct (vld v) as [y|] eqn:V; [|discriminate]. inversion H; subst.
+    - destruct (vld v) as [y|] eqn:V; [|discriminate]. destruct (fits i); [|discriminate]. inversion H; subst.
       apply Forall_insert; [eapply HP; exact V|exact F].
-    - inversion H as [[H1 H2]]. destruct (pop l _) as [[x l2]|] eqn:E; cbn in H1; [|discriminate].
+    - cbv zeta in H. destruct (fits _); [|discriminate]. inversion H as [[H1 H2]].
+      destruct (pop l _) as [[x l2]|] eqn:E; cbn in H1; [|discriminate].
       inversion H1; subst. eapply Forall_pop; eassumption.
     - inversion H as [[H1 H2]]. destruct (remove py_eq l v) eqn:E; cbn in H1; [|discriminate]. inversion H1; subst.
       eapply Forall_remove; eassumption.
     - inversion H; subst. apply Forall_rev. exact F.
     - inversion H; subst. apply Forall_sort. exact F.
     - inversion H; subst. constructor.
-    - destruct (vld v) as [y|] eqn:V; [|discriminate]. inversion H; subst.
+    - destruct (vld v) as [y|] eqn:V; [|discriminate]. destruct (fits i); [|discriminate]. inversion H; subst.
       apply Forall_insert; [eapply HP; exact V|exact F].
-    - inversion H as [[H1 H2]]. destruct (pop l _) as [[x l2]|] eqn:E; cbn in H1; [|discriminate].
+    - cbv zeta in H. destruct (fits _); [|discriminate]. inversion H as [[H1 H2]].
+      destruct (pop l _) as [[x l2]|] eqn:E; cbn in H1; [|discriminate].
       inversion H1; subst. eapply Forall_pop; eassumption.
-    - inversion H; subst. apply Forall_imul. exact F.
+    - destruct (fits n); [|discriminate]. inversion H; subst. apply Forall_imul. exact F.
     - destruct (slice_step sl =? 0); discriminate H.
     - discriminate H.
     - discriminate H.
@@ -98,10 +100,10 @@ Section ListProofs.
       pose proof (vld_all_length vld vs ys V). unfold zlen. rewrite app_length. lia.
     - inversion AN; subst. destruct (vld_all vld vs) as [ys|] eqn:V; [|discriminate]. inversion H; subst.
       pose proof (vld_all_length vld vs ys V). unfold zlen. rewrite app_length. lia.
-    - inversion AN; subst. inversion H; subst. apply imul_length.
+    - inversion AN; subst. destruct (fits n); [|discriminate]. inversion H; subst. apply imul_length.
     - discriminate H.
-    - inversion AN; subst. destruct (vld v); [|discriminate]. inversion H; subst. apply insert_length.
-    - inversion AN; subst. inversion H as [[H1 H2]].
+    - inversion AN; subst. destruct (vld v); [|discriminate]. destruct (fits i); [|discriminate]. inversion H; subst. apply insert_length.
+    - inversion AN; subst. cbv zeta in H. destruct (fits _); [|discriminate]. inversion H as [[H1 H2]].
       destruct (pop l _) as [[x l2]|] eqn:E; cbn in H1; [|discriminate]. inversion H1; subst.
       pose proof (pop_length l l' _ x E). lia.
     - inversion AN; subst. inversion H as [[H1 H2]].
@@ -110,11 +112,11 @@ Section ListProofs.
     - inversion AN; subst. inversion H; subst. unfold zlen. rewrite rev_length. reflexivity.
     - inversion AN; subst. inversion H; subst. unfold zlen. rewrite sort_length. reflexivity.
     - inversion AN; subst. inversion H; subst. reflexivity.
-    - inversion AN; subst. destruct (vld v); [|discriminate]. inversion H; subst. apply insert_length.
-    - inversion AN; subst. inversion H as [[H1 H2]].
+    - inversion AN; subst. destruct (vld v); [|discriminate]. destruct (fits i); [|discriminate]. inversion H; subst. apply insert_length.
+    - inversion AN; subst. cbv zeta in H. destruct (fits _); [|discriminate]. inversion H as [[H1 H2]].
       destruct (pop l _) as [[x l2]|] eqn:E; cbn in H1; [|discriminate]. inversion H1; subst.
       pose proof (pop_length l l' _ x E). lia.
-    - inversion AN; subst. inversion H; subst. apply imul_length.
+    - inversion AN; subst. destruct (fits n); [|discriminate]. inversion H; subst. apply imul_length.
     - discriminate AN.
     - discriminate AN.
     - discriminate H.
